@@ -26,13 +26,14 @@ def main():
     # hard wall-clock limit for the whole check: a harness that cannot finish is an internal error
     # (exit 2), never a verdict; checks whose property has a termination clause convert hangs of the
     # implementation into witnesses themselves, under their own much shorter watchdogs
-    import signal
+    import threading
     limit = int(os.environ.get('VERIF_WALL_LIMIT', '1800' if tier == 'quick' else '7200'))
-    def _too_long(signum, frame):
+    def _too_long():
         print(f'[{a.pid}] internal: check exceeded its wall-clock limit of {limit}s (tier {tier})', flush=True)
         os._exit(2)
-    signal.signal(signal.SIGALRM, _too_long)
-    signal.alarm(limit)
+    _wd = threading.Timer(limit, _too_long)   # a thread, not SIGALRM: some checks use SIGALRM for their own watchdogs
+    _wd.daemon = True
+    _wd.start()
     try:
         rc = common.run_check(spec, tier, seed)
     except (common.Timeout, common.InternalError) as e:
